@@ -208,6 +208,11 @@ func cacheReplay(args map[string]string) error {
 			ev["inflight"] = len(procs)
 			ev["cache"] = snapshot(rc.GetRegions(), inf)
 			w.Emit(ev)
+			// the background flusher of the region storage runs at some point of the history (never / half-way / after
+			// every second or third step): later changes of a flushed region are pending writes again when it is displaced
+			if (bi%4 == 1 && si == len(beh)/2) || (bi%4 == 2 && si%2 == 0) || (bi%4 == 3 && si%3 == 0) {
+				storage.Flush()
+			}
 		}
 		for p, pr := range procs {
 			if err := pr.Finish2(gate.Proceed, wait); err != nil {
